@@ -27,15 +27,21 @@ type docGen struct {
 	feat map[string]bool
 	lang int // 0 latin, 1 cjk mix, 2 hangul mix
 	ogAlias string
+	accented bool
 }
 
 var latinStems = []string{"alpha", "bravo", "candle", "delta", "ember", "fjord", "garnet", "harbor", "island", "jungle",
 	"kernel", "lantern", "meadow", "nectar", "orbit", "pebble", "quartz", "river", "summit", "timber", "umber", "valley", "willow", "xenon", "yonder", "zephyr"}
+var accentedWords = []string{"página", "próxima", "año", "niño", "café", "été", "précédent", "suivant", "français", "naïve", "Zürich", "nächste", "zurück", "straße", "Größe", "ação", "coração", "São", "señor", "smörgåsbord", "Łódź", "čeština", "žlutý", "İstanbul", "Ελληνικά", "русский", "следующая", "назад", "עברית", "العربية", "ไทย", "हिन्दी", "😀", "ﬁnal", "e\u0301cole", "soft\u00adhyphen", "zero\u200bwidth"}
+
 var cjkWords = []string{"文章", "新闻", "内容", "页面", "阅读", "模式", "技術", "情報", "東京", "記事", "下一页", "上一页"}
 var hangulWords = []string{"기사", "내용", "뉴스", "페이지", "다음", "이전", "한국어", "읽기"}
 
 func (g *docGen) word() string {
 	g.tok++
+	if g.accented && g.r.P(1, 5) {
+		return Pick(g.r, accentedWords)
+	}
 	switch g.lang {
 	case 1:
 		if g.r.P(1, 3) {
@@ -134,6 +140,9 @@ func (g *docGen) inline(depth int) string {
 
 var rareTags = []string{"menu", "dir", "center", "marquee", "nobr", "details", "summary", "dialog", "dl", "address", "article", "section", "aside", "main", "header", "footer", "nav", "hgroup", "ruby", "bdi", "time", "mark", "meter", "output", "progress", "fieldset", "legend", "map", "canvas", "audio", "object", "applet", "noframes", "listing", "xmp", "big", "strike", "tt", "acronym", "s", "u", "kbd", "samp", "var", "cite", "dfn", "abbr", "q", "ins", "del", "small", "label", "button", "select", "datalist", "optgroup", "caption", "colgroup", "tbody", "thead", "tfoot", "th", "td", "tr", "li", "dt", "dd", "figcaption", "picture", "source", "track", "param", "slot", "template", "custom-element", "font", "basefont", "blink", "spacer", "image", "isindex", "keygen", "bgsound", "rb", "rtc", "rp"}
 
+// ids that generated pages always or often contain
+var knownIDs = []string{"content", "header", "footer", "sec", "author-box", "author-box content", "related-box"}
+
 var sprinkleClasses = []string{"comment", "sidebar", "footer", "share", "social", "sponsor", "related", "widget", "promo", "hidden", "caption", "byline", "article", "content", "main", "entry", "post", "text", "pager", "pagination", "meta", "tags", "breadcrumb", "banner", "ad-wrap", "print", "skyscraper", "disqus_thread", "community", "remark", "shopping", "tweet-box", "masthead", "outbrain", "popup"}
 
 // attrs sometimes returns a class and/or id attribute from a vocabulary the
@@ -164,6 +173,11 @@ func (g *docGen) vocabAttrs() string {
 			fmt.Fprintf(&sb, ` %s=""`, strings.ToLower(name))
 		case 6:
 			fmt.Fprintf(&sb, ` role="%s"`, name)
+		}
+		if g.r.P(1, 4) {
+			// an attribute whose value refers to the id of another element of the page
+			g.f("idref-attr")
+			fmt.Fprintf(&sb, ` %s="%s"`, strings.ToLower(Pick(g.r, VocabNames)), Pick(g.r, knownIDs))
 		}
 	}
 	return sb.String()
@@ -494,6 +508,27 @@ func (g *docGen) unlikely(big bool) {
 	g.w("</div>\n")
 }
 
+// pagingText returns the text of a next / previous link: short, long, localised, padded to a boundary length.
+func (g *docGen) pagingText(next bool) string {
+	var base []string
+	if next {
+		base = []string{"Next", "Next »", "next page", "下一页", ">", "Newer", "Continue reading", "more", "Próxima página", "Suivant", "Nächste Seite", "Siguiente »", "следующая", "次へ", "다음", "Continue reading this story on the next page", "Click here to continue to the next part of this article"}
+	} else {
+		base = []string{"Prev", "« Previous", "previous page", "上一页", "<", "Older", "Anterior", "Précédent", "Zurück", "« Página anterior", "назад", "前へ", "이전", "Go back to the previous page of this long story"}
+	}
+	t := Pick(g.r, base)
+	if n, ok := boundary(g.r, 80); ok && g.r.P(1, 5) {
+		g.f("paging-text-boundary-length")
+		for len(t) < n {
+			t += " " + g.word()
+		}
+		if len(t) > n && n > 4 {
+			t = t[:n]
+		}
+	}
+	return t
+}
+
 // pager writes a pager and returns a page URL consistent with it.
 func (g *docGen) pager(host string) string {
 	kind := g.r.Intn(12)
@@ -605,7 +640,7 @@ func (g *docGen) pager(host string) string {
 	if g.r.P(1, 2) {
 		g.f("prev-anchor")
 		if cur > 1 {
-			g.wf(`<a href="%s" class="prev" rel="prev">%s</a> `, hrefs[cur-2], Pick(g.r, []string{"Prev", "« Previous", "previous page", "上一页", "<", "Older"}))
+			g.wf(`<a href="%s" class="prev" rel="prev">%s</a> `, hrefs[cur-2], g.pagingText(false))
 		} else if g.r.Bool() {
 			g.w(`<a href="javascript:void(0)" class="prev disabled">Prev</a> `)
 		}
@@ -635,7 +670,7 @@ func (g *docGen) pager(host string) string {
 	if g.r.P(1, 2) {
 		g.f("next-anchor")
 		if cur < n {
-			g.wf(`<a href="%s" class="next" rel="next">%s</a>`, hrefs[cur], Pick(g.r, []string{"Next", "Next »", "next page", "下一页", ">", "Newer", "Continue reading", "more"}))
+			g.wf(`<a href="%s" class="next" rel="next">%s</a>`, hrefs[cur], g.pagingText(true))
 		}
 	}
 	if g.r.P(1, 6) {
@@ -657,6 +692,15 @@ func (g *docGen) head(host string) {
 		g.w(`<meta charset="utf-8">`)
 	}
 	sep := Pick(g.r, []string{" - ", " | ", ": ", " » ", " — ", ""})
+	if len(VocabPunct) > 0 && g.r.P(1, 4) {
+		g.f("title-vocab-separator")
+		sep = Pick(g.r, VocabPunct)
+		if g.r.Bool() {
+			sep = strings.TrimSpace(sep)
+		}
+	} else if g.r.P(1, 12) {
+		sep = Pick(g.r, []string{"：", "｜", "・", "—", "–", "·", "→", "«", "//", "::", "|", ":", "-"})
+	}
 	t1 := g.words(g.r.Range(1, 7))
 	title := t1
 	if sep != "" {
@@ -756,7 +800,11 @@ func (g *docGen) head(host string) {
 func (g *docGen) schemaOrg() {
 	g.f("schemaorg")
 	typ := Pick(g.r, []string{"Article", "NewsArticle", "BlogPosting", "Person", "Organization", "ImageObject", "Recipe"})
-	g.wf(`<div itemscope itemtype="http://schema.org/%s">`, typ)
+	extra := g.vocabAttrs()
+	if len(VocabNames) > 0 && g.r.P(1, 2) {
+		extra += fmt.Sprintf(` %s="%s"`, strings.ToLower(Pick(g.r, VocabNames)), Pick(g.r, knownIDs))
+	}
+	g.wf(`<div itemscope itemtype="http://schema.org/%s"%s>`, typ, extra)
 	g.wf(`<h2 itemprop="headline name">%s</h2>`, g.words(4))
 	if g.r.Bool() {
 		g.wf(`<span itemprop="author" itemscope itemtype="http://schema.org/Person"><span itemprop="name">%s</span></span>`, g.words(2))
@@ -911,7 +959,24 @@ func (g *docGen) body(host string) string {
 	if pagerAt == blocks {
 		pageURL = g.pager(host)
 	}
+	if pageURL != "" && g.r.P(1, 5) {
+		// the same paginator again below the content, with other tracking parameters: tied candidates
+		g.f("duplicate-pager")
+		sep := "?"
+		if strings.Contains(pageURL, "?") {
+			sep = "&"
+		}
+		nxt := SiblingURL(g.r, pageURL)
+		g.wf(`<div class="pagination top"><a class="next" rel="next" href="%s%spos=top">Next</a></div>`, nxt, sep)
+		g.w("<p>" + g.words(30) + "</p>")
+		g.wf(`<div class="pagination bottom"><a class="next" rel="next" href="%s%spos=bottom">Next</a></div>`+"\n", nxt, sep)
+	}
 	g.w("</div>\n")
+	if g.r.P(1, 3) {
+		// an element other elements may refer to by id, outside the article
+		g.f("referenced-box")
+		g.wf(`<div id="author-box" class="vcard"><span itemprop="author" itemscope itemtype="http://schema.org/Person"><span itemprop="name">%s</span></span> <span itemprop="publisher">%s</span></div><aside id="related-box"><p>%s</p></aside>`+"\n", g.words(2), g.word(), g.words(12))
+	}
 	if g.r.P(1, 2) {
 		g.f("footer")
 		g.w(`<div id="footer" class="footer"><p>Copyright ` + g.words(5) + `</p><a href="/about">About</a> <a href="/contact">Contact</a> <a href="#comments">12 comments</a></div>` + "\n")
@@ -928,6 +993,10 @@ func Document(seed uint64) GenDoc {
 	r := Derive(seed, 0xd0c)
 	g := &docGen{r: r, id: fmt.Sprintf("x%x", seed&0xfff), feat: map[string]bool{}}
 	g.lang = 0
+	if r.P(1, 5) {
+		g.accented = true
+		g.f("accented-words")
+	}
 	if r.P(1, 8) {
 		g.lang = 1
 		g.f("cjk")
@@ -1408,7 +1477,8 @@ func coveringCorpus(maxDocs int) []GenDoc {
 // whatever the library remembers per URL it must remember a lot of here.
 func IndexPage(links int) GenDoc {
 	var sb strings.Builder
-	sb.WriteString("<html><head><title>Index of everything</title></head><body><h1>Index</h1><p>")
+	sb.WriteString("<html><head><title>Index of everything</title></head><body><h1>Index</h1>")
+	sb.WriteString(`<div class="pagination top"><a class="next" rel="next" href="/index/3?pos=top">Next</a></div><p>`)
 	for i := 0; i < 120; i++ {
 		fmt.Fprintf(&sb, "ix%d ", i)
 	}
@@ -1416,7 +1486,8 @@ func IndexPage(links int) GenDoc {
 	for i := 0; i < links; i++ {
 		fmt.Fprintf(&sb, `<p>entry %d words more <a href="/entry/%d?ref=%d">entry %d</a> <img src="/thumbs/%d.jpg"></p>`+"\n", i, i, i*7, i, i)
 	}
-	sb.WriteString(`<div class="pager"><a href="/index/1">1</a> <a href="/index/2">2</a> <a href="/index/3">3</a></div></body></html>`)
+	sb.WriteString(`<div class="pager"><a href="/index/1">1</a> <a href="/index/2">2</a> <a href="/index/3">3</a></div>`)
+	sb.WriteString(`<div class="pagination bottom"><a class="next" rel="next" href="/index/3?pos=bottom">Next</a></div></body></html>`)
 	return GenDoc{Bytes: []byte(sb.String()), URL: "http://example.com/index/2", Origin: fmt.Sprintf("indexpage:%d", links), Features: []string{"index-page"}, UTF8: true}
 }
 
@@ -1443,14 +1514,43 @@ func boundary(r *Rand, max int) (int, bool) {
 // or just above a number the library's source mentions: words in the page or
 // in one paragraph, links, images, list items, table rows or columns, pager
 // length, title length, nesting depth, or the byte size of the whole page.
+var boundaryLimits = []int{3000, 600, 1500, 400, 300, 120, 40, 60, 250, 300, 60000}
+
 func BoundaryDoc(seed uint64) GenDoc {
 	r := Derive(seed, 0xb0d7)
-	var sb strings.Builder
 	what := r.Intn(11)
-	n, ok := boundary(r, []int{3000, 600, 1500, 400, 300, 120, 40, 60, 250, 300, 60000}[what])
+	n, ok := boundary(r, boundaryLimits[what])
 	if !ok {
 		n = 16
 	}
+	return boundaryDoc(seed, what, n)
+}
+
+// BigDocs returns, for each quantity, one page in which that quantity exceeds
+// every number the library's source mentions (up to the quantity's limit): a
+// change that behaves differently "above N" is above N here, whatever N is.
+func BigDocs() []GenDoc {
+	var out []GenDoc
+	for what := 0; what < 10; what++ {
+		n := 0
+		for _, v := range VocabNumbers {
+			if v <= boundaryLimits[what] && v > n {
+				n = v
+			}
+		}
+		if n == 0 {
+			n = boundaryLimits[what] / 2
+		}
+		d := boundaryDoc(uint64(0xb16+what), what, n+1)
+		d.Origin = "big:" + d.Origin
+		out = append(out, d)
+	}
+	return out
+}
+
+func boundaryDoc(seed uint64, what, n int) GenDoc {
+	r := Derive(seed, 0xb0d8)
+	var sb strings.Builder
 	tok := 0
 	w := func(k int) string {
 		var b strings.Builder
@@ -1535,4 +1635,61 @@ func BoundaryDoc(seed uint64) GenDoc {
 		out = strings.Replace(out, "</body>", "<p>"+strings.Repeat("x", pad)+"</p></body>", 1)
 	}
 	return GenDoc{Bytes: []byte(out), URL: "http://example.com/story/page/2", Origin: fmt.Sprintf("boundary:%x/%s=%d", seed, desc, n), Features: []string{"boundary-" + desc}, UTF8: true}
+}
+
+// AttrProbeDocs returns one small page per attribute name the library's source
+// passes to its attribute helpers: elements of every major kind carry that
+// attribute, with values that are an id of another element, a URL, a number,
+// a boolean, a class-like word or empty. A change that starts to honour an
+// attribute meets it here on the first run.
+func AttrProbeDocs() []GenDoc {
+	var out []GenDoc
+	for i, a := range VocabAttrNames {
+		vals := []string{"author-box", "/img/probe.jpg", "3", "true", "related-box content", ""}
+		v := func(k int) string { return vals[(i+k)%len(vals)] }
+		var sb strings.Builder
+		fmt.Fprintf(&sb, `<html %s="%s"><head><title>Attribute probe page for %s</title><meta %s="%s" content="probe"></head><body>`, a, v(0), a, a, v(1))
+		sb.WriteString(`<div id="author-box" class="vcard"><span itemprop="author" itemscope itemtype="http://schema.org/Person"><span itemprop="name">Probe Author</span></span></div>`)
+		sb.WriteString(`<aside id="related-box"><p>related box text</p></aside><div id="content">`)
+		fmt.Fprintf(&sb, `<article itemscope itemtype="http://schema.org/Article" %s="author-box"><h1 itemprop="headline" %s="%s">Attribute probe heading</h1>`, a, a, v(2))
+		for p := 0; p < 4; p++ {
+			fmt.Fprintf(&sb, `<p %s="%s">`, a, v(p))
+			for w := 0; w < 45; w++ {
+				fmt.Fprintf(&sb, "ap%d_%d ", i, p*45+w)
+			}
+			sb.WriteString("</p>")
+		}
+		fmt.Fprintf(&sb, `<figure %s="%s"><img src="/img/a.jpg" %s="%s" width="400" height="300"><figcaption %s="%s">probe caption</figcaption></figure>`, a, v(3), a, v(1), a, v(4))
+		fmt.Fprintf(&sb, `<a href="/probe/2" %s="%s">2</a> <a href="/probe/3" %s="%s">next</a>`, a, v(2), a, v(0))
+		fmt.Fprintf(&sb, `<table %s="%s"><tr><th %s="%s">h</th></tr><tr><td %s="%s">cell text</td></tr></table>`, a, v(2), a, v(0), a, v(3))
+		fmt.Fprintf(&sb, `<ul %s="%s"><li %s="%s">item one</li><li>item two</li></ul><iframe %s="%s" src="http://www.youtube.com/embed/probe"></iframe>`, a, v(5), a, v(0), a, v(1))
+		sb.WriteString(`</article></div></body></html>`)
+		out = append(out, GenDoc{Bytes: []byte(sb.String()), URL: "http://example.com/probe/1", Origin: "attrprobe:" + a, Features: []string{"attr-probe"}, UTF8: true})
+	}
+	return out
+}
+
+// BulkDoc is a page of about target bytes whose main text sits inside a
+// container the first (strict) extraction pass treats as unlikely content, so
+// the lenient second pass decides the result: heavy pages for the thorough tier.
+func BulkDoc(seed uint64, target int) GenDoc {
+	r := Derive(seed, 0xb01c)
+	var sb strings.Builder
+	cls := Pick(r, []string{"sidebar", "comment", "footer", "related"})
+	fmt.Fprintf(&sb, "<html><head><title>Bulk page %x</title></head><body><h1>Bulk page</h1><p>", seed&0xfff)
+	for i := 0; i < 60; i++ {
+		fmt.Fprintf(&sb, "lead%d ", i)
+	}
+	fmt.Fprintf(&sb, `</p><div class="%s" id="%s">`, cls, cls)
+	i := 0
+	for sb.Len() < target {
+		sb.WriteString("<p>")
+		for w := 0; w < 80; w++ {
+			i++
+			fmt.Fprintf(&sb, "bulk%x_%d ", seed&0xff, i)
+		}
+		sb.WriteString("</p>\n")
+	}
+	sb.WriteString("</div></body></html>")
+	return GenDoc{Bytes: []byte(sb.String()), URL: "http://example.com/bulk/2", Origin: fmt.Sprintf("bulk:%x/%d", seed, target), Features: []string{"bulk-page"}, UTF8: true}
 }
